@@ -7,7 +7,7 @@ from harness import core
 from harness.core import Outcome
 
 ID = "C15"
-LEAN_TARGETS = ["BeyondVerif.Props.C15", "BeyondVerif.Witness.C15"]
+LEAN_TARGETS = ["BeyondVerif.Props.C15", "BeyondVerif.Props.C15Reg", "BeyondVerif.Witness.C15"]
 THEOREMS = [
     "BeyondVerif.C15.names_six_distinct",
     "BeyondVerif.C15.access_name_index",
@@ -85,6 +85,20 @@ THEOREMS = [
     "BeyondVerif.C15W.cov_from_cov_has_own_buffer",
     "BeyondVerif.C15W.lazily_created_maneuver_list_not_shared",
     "BeyondVerif.C15W.failed_frame_change_from_keplerian",
+    "BeyondVerif.C15.pickle_frame_any_registry_history",
+    "BeyondVerif.C15.St.load_replies_dumped",
+    "BeyondVerif.C15.St.step_keeps_blobs",
+    "BeyondVerif.C15.St.load_after_history",
+    "BeyondVerif.C15.get_set_same",
+    "BeyondVerif.C15.get_set_other",
+    "BeyondVerif.C15.get_del_same",
+    "BeyondVerif.C15.get_del_other",
+    "BeyondVerif.C15.get_after_build",
+    "BeyondVerif.C15.rereg_replaces",
+    "BeyondVerif.C15.byName_roundtrip_iff",
+    "BeyondVerif.C15.byName_unsound_on_registry0",
+    "BeyondVerif.C15.byName_unsound_after_rereg",
+    "BeyondVerif.C15.byName_fails_when_unregistered",
 ]
 LEVEL_TEXT = ("Lean theorems over an object-graph (heap) model of StateVector/Orbit/Cov (buffers of state vectors AND of covariances, dicts, containers, maneuver and covariance objects are cells): for every heap and receiver, copy(), "
               "copy(form=..), copy(frame=..), as_orbit, as_statevector, a pickle round trip and the constructors given an existing object write no pre-existing cell (receiver unchanged, also when the conversion fails); in every "
@@ -101,7 +115,10 @@ LEVEL_TEXT = ("Lean theorems over an object-graph (heap) model of StateVector/Or
               "(infosTest_never by kernel decide, getInfos_own); the object Frame.transform returns is separate from its argument (transformObj_separate); copy.deepcopy writes no old cell and stores only new "
               "addresses (stdDeepcopy_separate); StateVector->Orbit->StateVector gives back the coordinates, form, frame and every immutable _data entry; name/alias/index resolution decided over the tables "
               "regenerated from beyond.orbits.forms on every run. The model agrees exactly (object-identity partition incl. memory owners of all buffers and cloned Frame objects, labels, error kinds, bit-identical buffers) with the "
-              "real classes on random operation sequences.")
+              "real classes on random operation sequences. Frame registry (Model/PickleReg.lean: frames.dynamic as key -> frame, the key a constructor registers under — the name, or 'Hill' for every HillFrame —, overriding and dropping of entries; "
+              "initial registry regenerated from the live package): the frame of an unpickled state is the frame the state was expressed in for EVERY sequence of registry events before the dump and between dump and load "
+              "(pickle_frame_any_registry_history; on the command machine the correspondence drives: St.load_after_history), with the exact condition under which a name-only pickle would do the same (byName_roundtrip_iff) and its failure "
+              "on the regenerated initial registry (Hill, kernel decide), after a name is registered again and after it is dropped.")
 LEVEL_NOTE = ("shared maneuver objects (kept on purpose by the library) are the open finding; the maneuver objects are the one exception in the separation theorems; that the "
               "content of copied containers equals the original's, and the pickle round trip as an isomorphism, are compared exactly by the correspondence but not proved; the history theorems cover in-place operations on the new object and, "
               "the other way round, on the original (setCov / Cov-from-Cov / copies of copies inside a history are compared by the correspondence and judged by the history oracle only); that the result of copy.deepcopy reaches no OLD maneuver object is proved "
@@ -114,6 +131,8 @@ TRUSTED = [
     "correspondence: real StateVector/Orbit/Cov objects vs the compiled Lean model on identical operation sequences; after every operation the whole object graph reachable from all variables is compared: "
     "partition of mutable objects by id() and of every ndarray buffer (state vectors, covariances, metadata arrays) by the object that owns its memory, identity of cloned Frame objects, kinds, keys, labels, error kind, and every "
     "coordinate buffer bit for bit against the pure evaluation (Form.__call__, Frame.transform on fresh objects) of the model's symbolic value; a library call that raises or does not return (1 s SIGALRM watchdog) is the outcome of that operation",
+    "correspondence `freg`: random sequences of frame constructions (every kind: built-in, alias key, Hill QSW/TNW, Frame(...) on Earth or an own centre, orbit2frame with and without local orientation, create_station incl. equatorial; two user names, "
+    "so names are taken over repeatedly), registry drops, pickle.dumps / loads of a state vector in any frame built so far and get_frame look-ups, on the real registry vs PickleReg.St.step; the model is told the description (class, name, orientation, centre) of what was built",
     "CPython object identity (id / is), ndarray.base chains, pickle / copy.deepcopy memo semantics, numpy buffer semantics",
     "the environment failures of Frame.transform are produced by the harness: a Frame registered for the duration of one assignment whose centre has no link (ValueError from Node.path), and beyond.config eop.missing_policy='error' with target EME2000 (EopError)",
 ]
@@ -125,6 +144,8 @@ ASSUMPTIONS = [
     "dict key order is not modelled (both dumps sort keys); `cov: None` (an immutable value left by the getter on first read) is treated as absent",
     "Date and Form objects are treated as immutable values identified by name; Frame objects by name and identity (pickle / deepcopy clone them, the setters compare them with `is`-semantics)",
     "copy.deepcopy of a metadata container holding a StateVector / Cov is modelled like a pickle of it (not generated by the harness)",
+    "Model/PickleReg.lean describes a Frame object by class, name, orientation name and centre name (its identity is the heap model's business; geometry of a station / the reference orbit of a local frame is compared by the oracle, not modelled); "
+    "a process that never registered a name is modelled as the name being dropped from the registry",
     "which rotations raise under the EOP 'error' policy depends on what the Date object has cached; the model takes 'the transformation raises e' as an input (setFrameBasic env) and the harness only asks for it where it does (target EME2000)",
 ]
 NOT_COVERED = [
@@ -138,6 +159,8 @@ NOT_COVERED = [
     "a form change that fails for another reason than an unknown name (an exception inside Form.__call__): no input of the generators reaches one",
     "Cov frame conversions to/from the Hill frame beyond the error kind; numerical content of covariance rotations (C14); the stale _orb_frame of a Cov re-attached to a state in another frame (C14)",
     "Orbit.propagate / Infos caches (C08, C01)",
+    "two user frames / stations of the SAME name both alive and both used in transformations (the conversion graphs route by name: C20); the pickle x registry oracle re-registers a name with a plain Earth-centred frame of another orientation; "
+    "built-in names (EME2000, ITRF, ...) are not taken over or dropped (the library itself looks them up by name)",
     "objects returned by Orbit.propagate / iter / ephem and by Ephem.interpolate / propagate / iter / ephem / copy, and Tle.orbit(): judged by the oracle (identity partition with receiver and stored orbits + every in-place mutation, both "
     "directions), not in the heap model (the propagator would need a state of its own); Ephem.__getitem__ / __iter__ hand out the stored objects themselves (container access, not a conversion)",
     "the object Frame.transform returns keeps the OLD Frame under `frame` and carries the new one under the extra key `_frame` (only its values are used by the setters): modelled and compared as it is, not judged",
@@ -160,7 +183,10 @@ RULE = ("correspondence: (a) exhaustive name resolution: every form x every rese
         "every leg of routes between the ten forms made to raise, through the setter and through copy(form=)); every public method returning a state object (Frame.transform, Form.__call__, Orbit.propagate/iter/ephem, Ephem.interpolate/propagate/iter/ephem/copy, "
         "Tle.orbit) by identity partition and mutate-one-observe-other; getter-created helpers: infos read on the original, then every converting method (copy variants, as_orbit, as_statevector, pickle, deepcopy, Frame.transform), "
         "then one side modified, then `new.infos.orb is new` and nine infos quantities of the new object against those of a fresh object with the same values; in the history oracle `obj.infos.orb is obj` for every object after every step; the same operation sequences as the "
-        "correspondence judged step by step by the statement (history oracle); name/alias/index on every form; pickle and StateVector<->Orbit round trips")
+        "correspondence judged step by step by the statement (history oracle); name/alias/index on every form; pickle and StateVector<->Orbit round trips; pickle x frames (check_pickle_frames): every kind of frame a state can be expressed in "
+        "(FRAME_KINDS: built-in, alias key WGS84, Hill QSW / TNW, user frame on Earth / on an own centre, orbit2frame plain / QSW / TNW, station / equatorial station) x registry event before the dump and between dump and load (none / name registered again for another frame / name "
+        "dropped) x holder (the state itself, Cov.orb, Ephem, the propagator's orbit, a metadata container) x via (pickle, copy.deepcopy): loads must not raise, frame description (class, name, orientation incl. station geometry, centre), values, metadata equal, and both "
+        "states expressed in EME2000 equal (rtol 1e-12); (c) correspondence `freg`: 3-9 commands drawn from build (11 kinds x 2 names), drop, dump, load, get_frame on the real registry vs PickleReg.St.step")
 
 FRAMES = ["EME2000", "MOD", "TOD", "TEME", "PEF", "ITRF"]
 FORMS = ["cartesian", "keplerian", "spherical", "keplerian_mean", "keplerian_eccentric", "keplerian_circular",
@@ -1104,6 +1130,244 @@ def check_roundtrip_types(out, rng, spec):
         out.fail("roundtrip-propagator", "as_orbit does not attach the propagator", inp)
 
 
+# ---------------------------------------------------------------- oracle: pickle x every kind of frame x registry histories
+
+# every way the anchored files (frames.py, stations.py) build a Frame object a state vector can be expressed in
+FRAME_KINDS = ["builtin", "alias", "hill-qsw", "hill-tnw", "user", "user-own-centre", "orbit2frame", "orbit2frame-qsw", "orbit2frame-tnw", "station", "station-equatorial"]
+# what happens to the REGISTRY (frames.dynamic, the table get_frame reads) after the state was built / after it was dumped:
+#   rereg: the name of the frame is registered again, for another frame (the state keeps the first one)
+#   unreg: the name is not registered (any more / in the loading process: a worker that never built the frame)
+REG_EVENTS = ["none", "rereg", "unreg"]
+PICKLE_HOLDERS = ["self", "cov-orb", "ephem", "propagator-orbit", "metadata"]
+USER_FRAME_NAME = "C15Lab"
+
+
+def _drop_node(leaf, name):
+    for parent in list(leaf.neighbors):
+        leaf.neighbors.pop(parent, None)
+        parent.neighbors.pop(leaf, None)
+        seen, todo = {parent}, [parent]
+        while todo:
+            n = todo.pop()
+            n.routes.pop(name, None)
+            for m in n.neighbors:
+                if m not in seen:
+                    seen.add(m)
+                    todo.append(m)
+
+
+class frame_world:
+    """builds one frame of a given kind and takes every trace of it out of beyond's registries again on exit (frames.dynamic, the two
+    conversion graphs, the `<a>_to_<b>` methods hung on Center / Orientation)"""
+
+    def __init__(self, kind, rng_pick=0):
+        self.kind = kind
+        self.pick = rng_pick
+
+    def __enter__(self):
+        from beyond.frames import frames, center, orient
+        import logging
+        self.saved = dict(frames.dynamic)
+        self.log, self.level = logging.getLogger(frames.log.name), logging.getLogger(frames.log.name).level
+        self.log.setLevel(logging.ERROR)       # "A frame with the name ... is already registered. Overriding": that is the point
+        self.attrs = {cls: set(cls.__dict__) for cls in (center.Center, orient.Orientation)}
+        self.made = []
+        self.frame = self.build(self.kind, USER_FRAME_NAME) if self.kind else None
+        return self
+
+    def build(self, kind, name, pick=None):
+        import numpy as np
+        if pick is not None:
+            self.pick = pick
+        from beyond.dates import Date
+        from beyond.frames import frames, center, orient, create_station
+        from beyond.orbits import StateVector
+        from beyond.propagators.kepler import Kepler
+        builtin = [k for k in sorted(self.saved) if k not in ("Hill", "WGS84") and not k.startswith("C15")]
+        if kind == "builtin":
+            return frames.get_frame(builtin[self.pick % len(builtin)])
+        if kind == "alias":       # a registry key that is not the name of the frame it gives
+            return frames.get_frame("WGS84")
+        if kind == "hill-qsw":    # the registered one; in a command sequence (the key may have been dropped): a new object, as ClohessyWiltshire.from_orbit makes
+            return frames.get_frame("Hill") if self.kind else frames.HillFrame("QSW")
+        if kind == "hill-tnw":    # what ClohessyWiltshire(sma, frame=HillFrame("TNW")) works in
+            return frames.HillFrame("TNW")
+        if kind == "user":
+            fr = frames.Frame(name, [orient.G50, orient.TEME, orient.PEF][self.pick % 3], center.Earth, exists_warning=False)
+        elif kind == "user-own-centre":
+            c = center.Center(name, body=center.Earth.body)
+            c.add_link(center.Earth, orient.EME2000, np.array([2.0e5, -1.0e5, 5.0e4, 0.0, 0.0, 0.0]))
+            fr = frames.Frame(name, orient.MOD, c, exists_warning=False)
+        elif kind.startswith("orbit2frame"):
+            ref = StateVector([7.2e6, 0.01, 0.9, 1.0, 2.0, 3.0], Date(2020, 3, 1), "keplerian", "EME2000").as_orbit(Kepler())
+            o = kind.split("-")[1].upper() if "-" in kind else None
+            fr = frames.orbit2frame(name, ref, orientation=o, exists_warning=False)
+        elif kind.startswith("station"):
+            fr = create_station(name, (43.4 + self.pick % 5, 1.5, 178.0), equatorial=kind.endswith("equatorial"))
+        else:
+            raise ValueError(kind)
+        self.made.append(fr)
+        return fr
+
+    def event(self, ev):
+        """one registry event on the name of the frame"""
+        from beyond.frames import frames, center, orient
+        fr = self.frame
+        if self.kind in ("builtin", "alias"):
+            return      # the built-in names are what the library itself looks up (get_frame("EME2000") inside Cov, the propagators, ...): not taken over here
+        key = "Hill" if type(fr).__name__ == "HillFrame" else fr.name
+        if ev == "rereg":
+            if key == "Hill":     # another propagator set up with the other orientation
+                frames.HillFrame("TNW" if fr.orientation == "QSW" else "QSW")
+            else:
+                other = orient.MOD if getattr(fr.orientation, "name", None) != "MOD" else orient.TOD
+                frames.Frame(key, other, center.Earth, exists_warning=False)
+        elif ev == "unreg":
+            frames.dynamic.pop(key, None)
+
+    def __exit__(self, *a):
+        from beyond.frames import frames, center, orient
+        for fr in self.made:
+            for obj in (getattr(fr.center, "node", None), fr.orientation):
+                if obj is not None and getattr(obj, "name", None) == fr.name and hasattr(obj, "neighbors"):
+                    _drop_node(obj, fr.name)
+        for cls, had in self.attrs.items():
+            for k in set(cls.__dict__) - had:
+                delattr(cls, k)
+        frames.dynamic.clear()
+        frames.dynamic.update(self.saved)
+        self.log.setLevel(self.level)
+        return False
+
+
+def frame_desc(fr):
+    """what a frame IS, without its identity: class, name, orientation (class, name, geometry), centre (class, name)"""
+    o = fr.orientation
+    geo = tuple(float(x).hex() for x in getattr(o, "latlonalt", ())) if hasattr(o, "latlonalt") else getattr(o, "orientation", None)
+    return (type(fr).__name__, fr.name, type(o).__name__, o if isinstance(o, str) else getattr(o, "name", None), geo if not hasattr(geo, "name") else geo.name,
+            type(fr.center).__name__, getattr(fr.center, "name", None))
+
+
+def inertial_state(sv):
+    """the point of space-time a state vector describes: cartesian coordinates in EME2000 (None for the untransformable Hill frame)"""
+    import numpy as np
+    if type(sv._data["frame"]).__name__ == "HillFrame":
+        return None
+    from beyond.frames import frames
+    q = sv.copy(frame=frames.EME2000, form="cartesian")
+    return np.array(q, dtype=float)
+
+
+def check_pickle_frames(out, rng, fcase):
+    """pickling preserves values and metadata — the frame is metadata, and the six numbers mean nothing without it — for a state expressed in
+    EVERY kind of frame the library can build, whatever happens to the frame registry between building the state, dumping and loading it,
+    and for every object that holds the state (covariance, ephemeris, propagator, a metadata container)"""
+    import numpy as np
+    from beyond.dates import Date, timedelta
+    from beyond.orbits import StateVector, Ephem
+    from beyond.orbits.cov import Cov
+    from beyond.propagators.kepler import Kepler
+    import copy as _copy
+    kind, holder = fcase["kind"], fcase["holder"]
+    via = fcase.get("via", "pickle")      # copy.deepcopy walks the same __reduce__-like protocol in one call: both registry events come before it
+    inp = {"fcase": fcase}
+    fam_kind = kind.split("-")[0]
+    out.count(key=("pickle-frame", via, kind, fcase["pick"] % 8, fcase["form"], holder, fcase["before"], fcase["between"]), kind="pickle-frame", frame=kind, holder=holder,
+              registry=f"{fcase['before']}/{fcase['between']}")
+    with frame_world(kind, fcase["pick"]) as w:
+        fr = w.frame
+        hill = type(fr).__name__ == "HillFrame"
+        date = Date(2020, 3, 1, 12, 0, 0)
+        if hill:
+            sv = StateVector([10.0, 20.0, 30.0, 0.1, 0.2, 0.3], date, "cartesian", fr, name="chaser", tags=["a"])
+        else:
+            sv = StateVector(fcase["kep"], date, "keplerian", "EME2000", name="sat", tags=["a"])
+            sv.frame = fr
+            if fcase["form"] != "keplerian":
+                sv.form = fcase["form"] if np.all(np.isfinite(np.asarray(sv.copy(form=fcase["form"])))) else "cartesian"
+        if hill and holder in ("ephem", "propagator-orbit") or via == "deepcopy" and holder == "propagator-orbit":
+            holder = "self"     # (StateVector.__deepcopy__ is copy(): the propagator of the result has not been given an orbit yet)
+        if holder == "cov-orb":
+            vals = np.diag([1.0e4, 2.0e4, 3.0e4, 1.0e-2, 2.0e-2, 3.0e-2])
+            sv.cov = Cov(sv, vals, fr)
+        elif holder == "propagator-orbit":
+            sv = sv.as_orbit(Kepler())
+            sv.propagator.orbit = sv
+        w.event(fcase["before"])
+        if holder == "ephem":
+            obj = Ephem([sv, sv.copy()])
+            obj._orbits[1].date = date + timedelta(seconds=60)
+            pick = lambda x: x[0]
+        elif holder == "metadata":
+            obj = StateVector(fcase["kep"], date, "keplerian", "EME2000", target=sv, targets=[sv])
+            pick = lambda x: x.target
+        elif holder == "propagator-orbit":
+            obj = sv
+            pick = lambda x: x.propagator.orbit if x.propagator.orbit is not None else x
+        else:
+            obj = sv
+            pick = lambda x: x
+        sv = pick(obj)        # the state whose round trip is judged (for a propagator: the copy it keeps of the orbit it was given)
+        desc0, snap0 = frame_desc(sv._data["frame"]), snap_full(sv)
+        how, ref = attempt(lambda: inertial_state(sv), 5.0)
+        if how != "ok":
+            out.tally("pickle-frame-skipped=state-not-expressible-in-EME2000")
+            return
+        if via == "deepcopy":
+            w.event(fcase["between"])
+            desc0, snap0 = frame_desc(sv._data["frame"]), snap_full(sv)
+        how, blob = attempt(lambda: pickle.dumps(obj) if via == "pickle" else obj, 5.0)
+        if how != "ok":
+            out.fail(f"pickle-frame-raises-{fam_kind}", f"pickle.dumps of a {type(obj).__name__} holding a state in a {kind} frame raises {type(blob).__name__}: {blob}", inp, observed=repr(blob))
+            return
+        if via == "pickle":
+            w.event(fcase["between"])
+        how, back = attempt(lambda: pick(pickle.loads(blob) if via == "pickle" else _copy.deepcopy(blob)), 5.0)
+        if how != "ok":
+            out.fail(f"{via}-frame-raises-{fam_kind}", f"a pickled {type(obj).__name__} holding a state in frame '{desc0[1]}' ({kind}; registry: {fcase['before']} before / {fcase['between']} after dumping) "
+                     f"can not be loaded ({via}): {type(back).__name__}: {back}", inp, observed=repr(back), expected="the state vector, in the frame it was expressed in")
+            return
+        if snap_full(sv) != snap0 or frame_desc(sv._data["frame"]) != desc0:
+            out.fail("receiver-changed-pickle", "pickling changed the object", inp)
+            return
+        desc1 = frame_desc(back._data["frame"])
+        s0, s1 = snap(sv), snap(back)
+        if s0[:4] != s1[:4] or type(back) is not type(sv):
+            out.fail("pickle-values", "form/frame name/values differ after a pickle round trip", inp, observed=s1[:4], expected=s0[:4])
+            return
+        d0, d1 = dict(s0[4]), dict(s1[4])
+        for k in sorted(set(d0) | set(d1)):
+            if d0.get(k) != d1.get(k):
+                out.fail(f"pickle-loses-{'cov' if k == 'cov' else 'metadata'}", f"metadata entry '{k}' differs after a pickle round trip", dict(inp, key=k), observed=str(d1.get(k))[:200], expected=str(d0.get(k))[:200])
+                return
+        if desc1 != desc0:
+            out.fail(f"{via}-frame-replaced-{fam_kind}", f"after a {via} round trip the state (same six numbers) is attached to another frame than the one it was expressed in "
+                     f"(registry: {fcase['before']} before / {fcase['between']} after dumping)", inp, observed=desc1, expected=desc0)
+            return
+        if holder == "cov-orb":
+            c0, c1 = sv.cov, back.cov
+            dd = (frame_desc(c1._data["frame"]) if not isinstance(c1._data["frame"], str) else c1._data["frame"], frame_desc(c1._orb_frame), frame_desc(c1._data["orb"]._data["frame"]))
+            de = (frame_desc(c0._data["frame"]) if not isinstance(c0._data["frame"], str) else c0._data["frame"], frame_desc(c0._orb_frame), frame_desc(c0._data["orb"]._data["frame"]))
+            if dd != de:
+                out.fail(f"{via}-frame-replaced-{fam_kind}", "after a pickle round trip the covariance (or the private state it keeps) is attached to another frame", inp, observed=dd, expected=de)
+                return
+        if ref is not None:
+            how, got = attempt(lambda: inertial_state(back), 5.0)
+            if how != "ok":
+                out.fail(f"pickle-unusable", f"an unpickled state in frame '{desc0[1]}' ({kind}) can not be expressed in EME2000: {type(got).__name__}: {got}", inp, observed=repr(got))
+                return
+            if not same_physical(ref, got, rtol=1e-12):
+                out.fail(f"{via}-frame-moves-{fam_kind}", f"the unpickled state is another point of space: {float(np.linalg.norm(ref[:3] - got[:3])):.3f} m from the original once both are expressed in EME2000",
+                         inp, observed=[float(x) for x in got], expected=[float(x) for x in ref])
+
+
+def rand_fcase(rng, **force):
+    fc = {"kind": rng.choice(FRAME_KINDS), "pick": rng.randrange(1000), "form": rng.choice(["cartesian", "keplerian", "spherical", "cartesian"]), "kep": rand_coord(rng),
+          "holder": rng.choice(PICKLE_HOLDERS), "before": rng.choice(REG_EVENTS), "between": rng.choice(REG_EVENTS), "via": rng.choice(["pickle", "pickle", "deepcopy"])}
+    fc.update(force)
+    return fc
+
+
 # ---------------------------------------------------------------- oracle: failing FORM changes, on every leg of every route
 
 class nobody_frame:
@@ -1579,6 +1843,13 @@ def oracle(ctx, widened):
         spec = rand_spec(rng, cov=(k % 2 == 0))
         check_pickle(out, rng, spec)
         check_roundtrip_types(out, rng, spec)
+    # pickle x every kind of frame (covering: each kind with the registry untouched, and with the name taken over / absent), then random
+    for kind in FRAME_KINDS:
+        check_pickle_frames(out, rng, rand_fcase(rng, kind=kind, holder="self", before="none", between="none", via="pickle"))
+        check_pickle_frames(out, rng, rand_fcase(rng, kind=kind, before=rng.choice(["rereg", "unreg"]), between="none"))
+        check_pickle_frames(out, rng, rand_fcase(rng, kind=kind, before="none", between=rng.choice(["rereg", "unreg"]), via="pickle"))
+    for _ in range(400 if big else 25):
+        check_pickle_frames(out, rng, rand_fcase(rng))
     for _ in range(3000 if big else 250):
         ops = rand_ops(rng)
         kep = [rand_coord(rng) for _ in range(2)]
@@ -1593,7 +1864,9 @@ def replay(f):
     i = f["input"]
     rng = random.Random(0)
     fam = f["family"]
-    if i.get("check") == "infos":
+    if "fcase" in i:
+        check_pickle_frames(out, rng, i["fcase"])
+    elif i.get("check") == "infos":
         check_infos(out, rng, i["spec"])
     elif i.get("case", "").startswith("form-"):
         check_failed_form_change(out, rng, i["spec"], thorough=True)
@@ -1648,7 +1921,8 @@ def live_tables():
     reg = [kv for kv in reg if kv[1] in {n for _, n in reg if _ == n}]   # keys of built-in frames only
     return {"form_keys": form_keys, "param_names": seen, "alt": alt, "cache": cache, "props": props,
             "frame_keys": sorted(kv for kv in reg if kv[0] in frames.__all__ or kv[0] == kv[1] and kv[0] in FRAMES + ["GCRF", "CIRF", "TIRF", "G50", "WGS84"]),
-            "hill_keys": sorted(hill)}
+            "hill_keys": sorted(hill),
+            "hill_frames": sorted((k, fr.name, str(fr.orientation)) for k, fr in frames.dynamic.items() if isinstance(fr, frames.HillFrame))}
 
 
 def form_setter_steps():
@@ -1797,6 +2071,8 @@ def extract(ctx):
            "/-- built-in Earth-centred frames: registry key ↦ `Frame.name` -/",
            f"def frameKeys : List (String × String) := {pairs(t['frame_keys'])}",
            "def hillKeys : List String := [" + ", ".join(map(_lstr, t["hill_keys"])) + "]",
+           "/-- the Hill frame(s) of the registry: registry key, `Frame.name`, orientation (a plain string for this class) -/",
+           "def hillFrames : List (String × String × String) := [" + ", ".join(f"({_lstr(k)}, {_lstr(n)}, {_lstr(o)})" for k, n, o in t["hill_frames"]) + "]",
            "/-- effects of `StateVector.form.fset` in source order, read from the AST of beyond/orbits/statevector.py (convert = the Form object / a conversion function is called: computed on a copy, may raise; "
            "store = written into the object's buffer; commit = `self._data[\"form\"] = …`; a loop body appears twice) -/",
            "def formSetterSteps : List String := [" + ", ".join(map(_lstr, t["form_steps"])) + "]",
@@ -2288,7 +2564,80 @@ def correspondence(ctx):
         if d is not None:
             out.fail("heap-sequence", d[0], {"ops": ops, "kep": kep}, observed=str(d[1])[:600], expected=str(d[2])[:600])
         out.sample({"line": "heap " + " ; ".join(" ".join(op) for op in ops), "reply": m[:200]}, limit=3)
+    # 3. the frame registry: events, dumps, loads and look-ups interleaved, real registry / real state vectors vs PickleReg.St.step
+    fcases = [rand_freg(rng) for _ in range(ctx.n(150, 3000))]
+    runs = [run_freg(c) for c in fcases]
+    replies = core.Driver().run([ln for ln, _ in runs])
+    for cmds, (ln, outs), m in zip(fcases, runs, replies):
+        out.count(key=tuple(tuple(c) for c in cmds), kind="registry-sequence", length=len(cmds), nontrivial=any(c[0] == "load" for c in cmds))
+        for c in cmds:
+            out.tally(f"freg={c[0]}" + (f":{c[1]}" if c[0] == "build" else ""))
+        exp = [x for x in m.split(" | ") if x] if m else []
+        if exp != outs:
+            k = next((i for i, (a, b) in enumerate(zip(outs, exp)) if a != b), min(len(outs), len(exp)))
+            asked = [c for c in cmds if c[0] in ("load", "get")]
+            out.fail("frame-registry", f"reply {k} ({' '.join(asked[k]) if k < len(asked) else '?'}) differs between the real registry / pickle and the model", {"freg": cmds},
+                     observed=" | ".join(outs)[:600], expected=m[:600])
+        out.sample({"line": ln, "reply": m[:200]}, limit=2)
     return out
+
+
+FREG_NAMES = ["C15LabA", "C15LabB"]
+FREG_KEYS = FREG_NAMES + ["Hill", "HillQSW", "HillTNW", "WGS84", "ITRF", "EME2000", "G50"]
+
+
+def rand_freg(rng, maxlen=9):
+    """registry events interleaved with dumps / loads of a state vector and with get_frame: every kind of frame, two user names (so that
+    a name is taken over again and again), the Hill key, names dropped"""
+    cmds, nbuilt, nblobs = [], 0, 0
+    for _ in range(rng.randint(3, maxlen)):
+        c = rng.choices(["build", "drop", "dump", "load", "get"], [5, 2, 4, 5, 3])[0]
+        if c == "build" or (c in ("dump", "load") and not nbuilt):
+            cmds.append(["build", rng.choice(FRAME_KINDS), rng.choice(FREG_NAMES), str(rng.randrange(1000))])
+            nbuilt += 1
+        elif c == "drop":
+            cmds.append(["drop", rng.choice(FREG_NAMES + ["Hill"])])
+        elif c == "dump" or not nblobs and c == "load":
+            cmds.append(["dump", str(rng.randrange(nbuilt))])
+            nblobs += 1
+        elif c == "load":
+            cmds.append(["load", str(rng.randrange(nblobs))])
+        else:
+            cmds.append(["get", rng.choice(FREG_KEYS)])
+    return cmds
+
+
+def frame_tokens(fr):
+    d = frame_desc(fr)
+    return [str(d[0]), str(d[1]), str(d[3]), str(d[6])]
+
+
+def run_freg(cmds):
+    """the commands on the real registry and real state vectors -> (request line for the model, list of replies)"""
+    from beyond.dates import Date
+    from beyond.frames import frames
+    from beyond.orbits import StateVector
+    line, outs, built, blobs = [], [], [], []
+    with frame_world(None) as w:
+        for c in cmds:
+            if c[0] == "build":
+                fr = w.build(c[1], c[2], int(c[3]))
+                built.append(fr)
+                line.append("build " + " ".join(frame_tokens(fr)))     # the model is told what was built, not what becomes of it
+                continue
+            line.append(" ".join(c))
+            if c[0] == "drop":
+                frames.dynamic.pop(c[1], None)
+            elif c[0] == "dump":
+                sv = StateVector([7.0e6, 1.0e5, -2.0e5, 10.0, 7.5e3, 3.0e2], Date(2020, 3, 1), "cartesian", built[int(c[1])], name="sat")
+                blobs.append(pickle.dumps(sv))
+            elif c[0] == "load":
+                how, back = attempt(lambda: pickle.loads(blobs[int(c[1])]), 5.0)
+                outs.append(",".join(frame_tokens(back._data["frame"])) if how == "ok" else err_kind(back))
+            elif c[0] == "get":
+                how, fr = attempt(lambda: frames.get_frame(c[1]), 5.0)
+                outs.append(",".join(frame_tokens(fr)) if how == "ok" else err_kind(fr))
+    return "freg " + " ; ".join(line), outs
 
 
 def resolve_indices(ops, kep):
